@@ -6,6 +6,8 @@ use crate::util::*;
 use serde_json::{json, Value};
 
 pub mod dewey;
+pub mod digest;
+pub mod distinfo;
 pub mod names;
 pub mod pattern;
 pub mod summary;
@@ -57,6 +59,12 @@ pub fn run(st: &mut State, op: &str, input: &Value) -> Option<Out> {
         "pkgname" => Some(names::pkgname(input)),
         "pkgpath" => Some(names::pkgpath(input)),
         "depend" => Some(names::depend(input)),
+        "distparse" => Some(distinfo::distparse(input)),
+        "distbuild" => Some(distinfo::distbuild(input)),
+        "verify" => Some(distinfo::verify(input)),
+        "digest" => Some(digest::digest(input)),
+        "algname" => Some(digest::algname(input)),
+        "hashvec" => Some(digest::hashvec(input)),
         "sumhist" => Some(summary::sumhist(input)),
         "sumparse" => Some(summary::sumparse(input)),
         "stream" => Some(summary::stream(input)),
@@ -72,6 +80,7 @@ pub fn compare(st: &State, op: &str, case: &Value, obs: &Value) -> Vec<Mismatch>
     let alt = case.get("alt");
     match op {
         "verrow" => dewey::verrow_compare(st, case, obs),
+        "digest" => digest::digest_compare(case, obs),
         _ if case.get("each").is_some() => {
             // element-wise comparison of equally shaped arrays under each key
             let mut ms = vec![];
